@@ -244,7 +244,7 @@ Lemma set_option_plain f s k v :
     (do v3 <- canon s k v;
      do ro <- resolve_for_set s k;
      do w <- store_value s k (fst ro) v3;
-     Ok (fst w, negb (pv_eqb (snd w) v3))).
+     Ok (fst (fst w), negb (pv_eqb (snd (fst w)) v3) || snd w)).
 Proof.
   intros Hp Hd. unfold plain_name in Hp. apply andb_prop in Hp as [Hp Hb].
   apply negb_true_iff in Hp, Hb.
@@ -256,7 +256,7 @@ Proof.
   assert (G : forall v2,
     (do v3 <- validate (okind o) v2;
      do w <- store_value s k rk v3;
-     (let (s2, old) := w in
+     (let '(s2, old, unsaved) := w in
       if oreadonly o && (false || negb (pv_eqb old v3)) && negb true then Err EMeson
       else do s3 <- (if str_eqb (kname k) (s2l "prefix") && true && (false || negb (pv_eqb old v3))
                      then match old with
@@ -271,17 +271,17 @@ Proof.
                             | Some (optimization, debug) =>
                                 do r1 <- set_option f s3 (evolve_name k (s2l "debug")) (PBool debug) true;
                                 do r2 <- set_option f (fst r1) (evolve_name k (s2l "optimization")) (PStr optimization) true;
-                                Ok (fst r2, false || negb (pv_eqb old v3))
+                                Ok (fst r2, false || negb (pv_eqb old v3) || unsaved)
                             | None => Err EKey
                             end
                 | PList _ => Err EOOM
                 | _ => Err EKey
                 end
-           else Ok (s3, false || negb (pv_eqb old v3)))) =
+           else Ok (s3, false || negb (pv_eqb old v3) || unsaved))) =
     (do v3 <- validate (okind o) v2;
-     do w <- store_value s k rk v3; Ok (fst w, negb (pv_eqb (snd w) v3)))).
+     do w <- store_value s k rk v3; Ok (fst (fst w), negb (pv_eqb (snd (fst w)) v3) || snd w))).
   { intros v2. destruct (validate (okind o) v2) as [v3|e]; cbn [bind]; [|reflexivity].
-    destruct (store_value s k rk v3) as [[s2 old]|e]; cbn [bind fst snd]; [|reflexivity].
+    destruct (store_value s k rk v3) as [[[s2 old] u]|e]; cbn [bind fst snd]; [|reflexivity].
     rewrite Hp, Hb. rewrite andb_false_r. cbn [andb orb bind]. rewrite andb_false_r. reflexivity. }
   destruct (odepr o) eqn:Ed; try discriminate Hn.
   - cbn [bind]. apply G.
